@@ -651,6 +651,26 @@ def query_rules(run, model, rule='HSM-QUERY'):
         match = [t for t in g.nodes if t.kind == 'test' and compare_parts(t.ast) and
                  {dotted(compare_parts(t.ast)[0]), dotted(compare_parts(t.ast)[2])} == {selfn + '.temp.fun', argp}]
         if len(match) != 1:
+            # a comparison of *projections* of the two handlers (f(cursor) == f(argument)) is not the match test the property needs
+            qdefs = local_defs(f.node)
+
+            def mentions(e, what, depth=3):
+                for x in ast.walk(e):
+                    if dotted(x) == what:
+                        return True
+                    if isinstance(x, ast.Name) and depth > 0 and x.id not in f.params:
+                        if any(isinstance(d_, ast.AST) and mentions(d_, what, depth - 1) for d_ in qdefs.get(x.id, [])):
+                            return True
+                return False
+            proj = [t for t in g.nodes if t.kind == 'test' and compare_parts(t.ast) and
+                    ((mentions(compare_parts(t.ast)[0], selfn + '.temp.fun') and mentions(compare_parts(t.ast)[2], argp)) or
+                     (mentions(compare_parts(t.ast)[2], selfn + '.temp.fun') and mentions(compare_parts(t.ast)[0], argp)))]
+            if proj and not match:
+                run.inst(rule + '.match', f, 'the cursor itself is compared with the argument itself', False,
+                         '%s decides the match by %s: it compares something computed from the two handlers, not the handlers. Two different states whose handlers have the same '
+                         'projection (the same wrapped function, the same name, ...) are taken for one another: is_in answers True for a state the chart is not in, child_state '
+                         'returns a state instead of failing' % (nm, norm(proj[0].ast)), node=proj[0].ast, obligation=True)
+                continue
             raise AnalysisError('%s: the match test (cursor vs argument) was not found' % nm)
         mt = match[0]
         if compare_parts(mt.ast)[1] not in (ast.Eq, ast.Is) or mt is h:
